@@ -36,7 +36,7 @@ class Pose:
 
     _NO_ROTATION_MTX = np.identity(3)
     _NO_ROTATION_VCT = np.array((0.0, 0.0, 0.0))
-    _NO_ROTATION_QUAT = np.array((0.0, 0.0, 0.0, 0.0))
+    _NO_ROTATION_QUAT = np.array((0.0, 0.0, 0.0, 1.0))
     _ORIGIN = np.array((0.0, 0.0, 0.0))
 
     def __init__(self, R_matrix: npt.ArrayLike = _NO_ROTATION_MTX, t_vec: npt.ArrayLike = _ORIGIN) -> None:
